@@ -22,6 +22,7 @@ type c16Req struct {
 	GapMs    int    `json:"gap_before_ms"`
 	Hijack   bool   `json:"hijack_before_timeout"`
 	NoResp   bool   `json:"hijack_no_response"`
+	Rewrite  bool   `json:"handler_rewrites_request_first,omitempty"` // a handler certain to time out first rewrites its own request (method HEAD, protocol HTTP/1.0): the response still belongs to the request as it was received
 	Conn     string `json:"connection,omitempty"` // "" | close (Connection: close) | http10 (HTTP/1.0 without keep-alive): the response ends the connection
 }
 
@@ -53,6 +54,7 @@ func scenC16(e *Env) func() {
 			// a handler certain to time out asks for the connection first
 			r.Hijack = r.SleepA >= 5*t && e.Chance(40)
 			r.NoResp = e.Chance(50)
+			r.Rewrite = r.SleepA >= 5*t && !r.Hijack && e.Chance(40)
 			r.Conn = Pick(e, "", "", "", "close", "http10")
 			rs = append(rs, r)
 		}
@@ -97,6 +99,10 @@ func c16Run(e *Env, p *c16Plan) {
 		if r.Hijack {
 			ctx.HijackSetNoResponse(r.NoResp)
 			ctx.Hijack(func(c net.Conn) { c.Write([]byte("HIJACKED-" + id)) })
+		}
+		if r.Rewrite {
+			ctx.Request.Header.SetMethod("HEAD")
+			ctx.Request.Header.SetProtocol("HTTP/1.0")
 		}
 		time.Sleep(time.Duration(r.SleepA) * time.Millisecond)
 		ctx.SetStatusCode(298)
